@@ -1,6 +1,7 @@
 import Dcg.Proofs.Config
 import Dcg.Proofs.KeyValue
 import Dcg.Gen.CliTables
+import Dcg.Proofs.PathNorm
 /-
 C18 — CLI flags, pyproject.toml settings and generate() arguments agree.
 Table theorems are `decide +kernel` over the tables regenerated from /repo on every run
@@ -259,6 +260,111 @@ example :
   decide
 
 end KeyValue
+
+
+/-! ### Path-valued options: the same text names the same real location on every route -/
+section Paths
+open Dcg.Model.PathNorm Dcg.Proofs.PathNorm
+
+/-- every argparse action of option `d` leaves the command-line text a `str` -/
+def cliKeepsText (d : Nat) : Bool := actionTypes.all (fun a => a.1 != d || strTypes.contains a.2)
+
+/-- FULL STRENGTH (false of the code, see `path_routes_alike_false`): every path-valued `Config` field is handed the
+SAME thing — the text — by the command line and by pyproject.toml. -/
+def PathRoutesAlike : Prop := pathFields.all (fun f => cliKeepsText f.1) = true
+
+/-- REFUTATION on the regenerated tables (finding C18-filetype): `--aliases` (and the two other options of
+`cliOpensRawString`) is `type=FileType("rt")` — argparse opens the raw text (`~` not expanded) while the pyproject.toml
+text goes through `Path(value).expanduser().resolve().open`. -/
+theorem path_routes_alike_false : ¬ PathRoutesAlike := by
+  unfold PathRoutesAlike; decide +kernel
+
+/-- PARTIAL, kernel-checked over the regenerated tables: the path-valued fields are exactly the reviewed ones; outside the
+reviewed `FileType` options the argparse `type=` of every path-valued option is None/`str`, so `merge_args` hands the
+validator the same `str` that `Config.parse_obj(pyproject)` hands it; every such field has exactly the reviewed
+`mode="before"` validator, whose source is the reviewed one (`None`/built object untouched, a string ↦
+`Path(value).expanduser().resolve()`); the excepted options really are `FileType` file fields. -/
+theorem path_fields_same_normalisation_partial :
+    pathFields = reviewedPathFields ∧
+    pathFields.all (fun f => cliOpensRawString.contains f.1 || cliKeepsText f.1) = true ∧
+    pathFields.all (fun f => fieldValidators.lookup f.1 == some [pathValidator f.2]) = true ∧
+    validatorBranches = reviewedValidatorBranches ∧
+    cliOpensRawString.all (fun d => actionTypes.contains (d, k! "FileType") && pathFields.contains (d, k! "file")) = true := by
+  decide +kernel
+
+/-- non-vacuity: four fields satisfy the string-type condition itself, not the exception -/
+example : (pathFields.filter (fun f => !cliOpensRawString.contains f.1 && cliKeepsText f.1)).length = 4 := by decide +kernel
+
+/-- Why the table obligation is the right one: when the argparse `type=` is None or `str`, the command-line route and the
+pyproject.toml route give the validator the same input, hence the same location or the same refusal — for EVERY text,
+HOME and working directory. -/
+theorem path_str_routes_agree (t : ArgType) (home cwd v : Str) (h : t = .none ∨ t = .str) :
+    validatePath home cwd (cliSees t v) = validatePath home cwd (.str v) := by
+  rcases h with rfl | rfl <;> rfl
+
+/-- … and it is necessary: with `type=Path` the validator's "already a Path" branch returns the value untouched, so a
+leading `~` is expanded for the pyproject.toml text but not for the same text on the command line. -/
+theorem path_type_breaks_tilde :
+    validatePath "/h".toList "/w".toList (cliSees .path "~/m.py".toList) = some "~/m.py".toList ∧
+    validatePath "/h".toList "/w".toList (.str "~/m.py".toList) = some "/h/m.py".toList := by decide
+
+example : validatePath "/h".toList "/w".toList (cliSees .none "~/m.py".toList) = some "/h/m.py".toList := by decide
+
+/-- A leading `~/` names a location below HOME whatever the working directory is: the parts of HOME followed by the
+parts of the rest, resolved from the root. -/
+theorem tilde_names_home (home cwd : List Str) (rest : Str) :
+    normaliseParts home cwd ('~' :: '/' :: rest) = some (resolveParts (home ++ comps rest)) := by
+  simp [normaliseParts, comps_tilde_slash, isAbs]
+
+/-- An absolute text names the same location whatever HOME and the working directory are. -/
+theorem absolute_ignores_home_cwd (home cwd home' cwd' : List Str) (v : Str) (h : isAbs v = true) :
+    normaliseParts home cwd v = normaliseParts home' cwd' v := by
+  simp [normaliseParts, h]
+
+example : isAbs "/data/x/../m.py".toList = true ∧
+    normaliseParts ["h".toList] ["w".toList] "/data/x/../m.py".toList = some ["data".toList, "m.py".toList] := by decide
+
+/-- The resolved parts contain no `..` … -/
+theorem resolve_no_dotdot (cs : List Str) : ∀ c ∈ resolveParts cs, c ≠ dotdot := by
+  intro c hc
+  exact walk_no_dotdot cs [] (by simp) c (by simpa [resolveParts] using hc)
+
+/-- … hence resolving them again changes nothing: a `generate()` call that is given the expanded, resolved path (the
+third route) lands at the same location as the text on the command line / in pyproject.toml. -/
+theorem resolve_idempotent (cs : List Str) : resolveParts (resolveParts cs) = resolveParts cs := by
+  unfold resolveParts
+  rw [walk_plain (walk [] cs).reverse [] (by
+    intro c hc
+    exact walk_no_dotdot cs [] (by simp) c (by simpa using hc))]
+  simp
+
+/-- the location named by any accepted text is a fixed point of the resolution -/
+theorem normalised_is_resolved (home cwd : List Str) (v : Str) (p : List Str)
+    (h : normaliseParts home cwd v = some p) : resolveParts p = p := by
+  have hex : ∃ cs, p = resolveParts cs := by
+    unfold normaliseParts at h
+    dsimp only at h
+    split at h
+    · exact ⟨_, (Option.some.inj h).symm⟩
+    · split at h
+      · exact ⟨_, (Option.some.inj h).symm⟩
+      · split at h
+        · exact ⟨_, (Option.some.inj h).symm⟩
+        · split at h
+          · cases h
+          · exact ⟨_, (Option.some.inj h).symm⟩
+  obtain ⟨cs, rfl⟩ := hex
+  exact resolve_idempotent cs
+
+/-- non-vacuity: `..` above HOME's child, a `~user` text is refused, a relative text is joined to the working directory -/
+example :
+    normalise "/r/home".toList "/r/proj/work".toList "~/a/../cfg/m.py".toList = some "/r/home/cfg/m.py".toList ∧
+    normalise "/r/home".toList "/r/proj/work".toList "~nobody/m.py".toList = none ∧
+    normalise "/r/home".toList "/r/proj/work".toList "../side//./m.py/".toList = some "/r/proj/side/m.py".toList ∧
+    normalise "/r/home".toList "/r/proj/work".toList "/../x".toList = some "/x".toList ∧
+    normaliseParts ["r".toList] ["w".toList] "a/..".toList = some ["w".toList] := by decide
+
+end Paths
 
 /-! ### The three ways of supplying an option set -/
 
